@@ -392,7 +392,8 @@ def single_departures(T, rng, rows_per_col=3):
     for tab, cols in ID_COLS.items():
         for col, what in cols:
             for row in pick_rows(len(T[tab]), rng, rows_per_col):
-                for v in id_values(count_of(T, what)):
+                # + the cell's own row index and the row count of its OWN table (ROUND5 class 6)
+                for v in sorted(set(id_values(count_of(T, what))) | {row, len(T[tab])}):
                     if v != T[tab][row][col]:
                         out.append(("%s[%d].%d=id:%s" % (tab, row, col, id_label(v, count_of(T, what))), setcell(tab, row, col, v)))
     for tab, cols in COORD_COLS.items():
@@ -504,7 +505,7 @@ def single_departures(T, rng, rows_per_col=3):
     NI = len(T["inds"])
     for row in pick_rows(NI, rng, rows_per_col):
         for k in range(len(T["inds"][row])):
-            for v in id_values(NI) + [row]:
+            for v in id_values(NI) + [row, row + 1, row - 1]:      # self, forward and backward reference
                 def f(X, row=row, k=k, v=v):
                     X["inds"][row][k] = v
                 out.append(("inds[%d].parents[%d]=id:%s" % (row, k, "self" if v == row else id_label(v, NI)), f))
@@ -543,6 +544,19 @@ def single_departures(T, rng, rows_per_col=3):
                 if tab == "edges":
                     X["index"] = None
             out.append(("%s del %d" % (tab, row), f3))
+    # a long region without any edge at the end / at the start of the sequence (ROUND5 class 5)
+    fin = [e for e in T["edges"] if isnum(e[0]) and isnum(e[1])]
+    if fin and isnum(L):
+        for frac, lab in ((0.5, "half"), (0.125, "eighth")):
+            cut = L * frac
+            def f(X, cut=cut):
+                X["edges"] = [[e[0], min(e[1], cut), e[2], e[3]] for e in X["edges"] if e[0] < cut]
+                X["index"] = None
+            out.append(("edges: nothing right of L*%s" % lab, f))
+            def g(X, cut=cut):
+                X["edges"] = [[max(e[0], cut), e[1], e[2], e[3]] for e in X["edges"] if e[1] > cut]
+                X["index"] = None
+            out.append(("edges: nothing left of L*%s" % lab, g))
     # populations removed (dangling population references)
     if T["npop"]:
         def f(X):
@@ -553,7 +567,7 @@ def single_departures(T, rng, rows_per_col=3):
         E = len(T["edges"])
         for which in ("I", "O"):
             for pos in pick_rows(E, rng, rows_per_col):
-                for v in id_values(E):
+                for v in sorted(set(id_values(E)) | {pos}):
                     if v != T["index"][which][pos]:
                         def f(X, which=which, pos=pos, v=v):
                             X["index"][which][pos] = v
@@ -620,7 +634,12 @@ def base_tables(rng, n, small=True, migrations=True):
                                individuals=True, populations=True)
         if len(d["edges"]) > 8 and small:
             continue
+        # node ids need not follow time order (ROUND5 class 1): half of the bases are renumbered;
+        # from_desc re-sorts the edges by (time[parent], parent, child, left) on the new ids and the
+        # oracle works on the flat tables, so nothing else is indexed by the old ids
+        d, _pi = gen_ts.permute_node_ids(rng, d, p=0.5)
         T = from_desc(d)
+        T["rm"] = rng.choice([0, 0, 1, 2])
         if valid_ts(T):          # the shared generator is expected to give valid tables
             raise AssertionError("gen_ts produced tables the docs oracle rejects: %r %r" % (valid_ts(T), T))
         jitter_mutation_times(T, rng)
@@ -649,6 +668,20 @@ def dec(v):
     if isinstance(v, str):
         return {"nan": math.nan, "inf": math.inf, "-inf": -math.inf, "unk": tskit.UNKNOWN_TIME}[v]
     return float(v)
+
+
+def ragged_lengths(T):
+    """Lengths of the 8 ragged columns re-validated by check_offsets, by ragged mode:
+    0 mixed; 1 state columns all-empty beside non-empty metadata; 2 metadata all-empty beside
+    non-empty state columns (ROUND5 class 8: one ragged column all-empty beside a sibling)."""
+    rm = T.get("rm", 0)
+    nN, nS, nM, nI = len(T["nodes"]), len(T["sites"]), len(T["muts"]), len(T["inds"])
+    node_md = [0] * nN if rm == 2 else [j % 3 for j in range(nN)]
+    st = 0 if rm == 1 else 1
+    md = 0 if rm == 2 else 1
+    return {"node_md": node_md, "site_state": [st] * nS, "site_md": [md] * nS, "mut_state": [st] * nM,
+            "mut_md": [0] * nM if rm == 2 else ([1] * nM if rm == 1 else [j % 2 for j in range(nM)]),
+            "ind_md": [md] * nI}
 
 
 def as_view(a, layout):
@@ -702,22 +735,23 @@ def fill_tc(tc, T, layout=None, keep_index=False):
     nI = len(T["inds"])
     par_off = np.zeros(nI + 1, dtype=np.uint64)
     par_off[1:] = np.cumsum([len(p) for p in T["inds"]])
-    md, mdo = ragged([b"i"] * nI)
+    md, mdo = ragged([b"i" * k for k in ragged_lengths(T)["ind_md"]])
     tc.individuals.set_columns(
         flags=np.zeros(nI, dtype=np.uint32), location=np.full(nI, 1.5), location_offset=np.arange(nI + 1, dtype=np.uint64),
         parents=i32(x for p in T["inds"] for x in p), parents_offset=par_off, metadata=md, metadata_offset=mdo)
-    md, mdo = ragged([b"n" * (j % 3) for j in range(len(T["nodes"]))])
+    RL = ragged_lengths(T)
+    md, mdo = ragged([b"n" * k for k in RL["node_md"]])
     tc.nodes.set_columns(flags=as_view(np.array(col("nodes", 3), dtype=np.uint32), layout), time=f64(col("nodes", 0)),
                          population=i32(col("nodes", 1)), individual=i32(col("nodes", 2)), metadata=md, metadata_offset=mdo)
     md, mdo = ragged([b"e"] * len(T["edges"]))
     tc.edges.set_columns(left=f64(col("edges", 0)), right=f64(col("edges", 1)), parent=i32(col("edges", 2)),
                          child=i32(col("edges", 3)), metadata=md, metadata_offset=mdo)
-    a, ao = ragged([b"ACGT"[j % 4:j % 4 + 1] for j in range(len(T["sites"]))])
-    md, mdo = ragged([b"s"] * len(T["sites"]))
+    a, ao = ragged([b"ACGT"[j % 4:j % 4 + 1] * k for j, k in enumerate(RL["site_state"])])
+    md, mdo = ragged([b"s" * k for k in RL["site_md"]])
     tc.sites.set_columns(position=f64(col("sites", 0)), ancestral_state=a, ancestral_state_offset=ao,
                          metadata=md, metadata_offset=mdo)
-    a, ao = ragged([b"TGCA"[j % 4:j % 4 + 1] for j in range(len(T["muts"]))])
-    md, mdo = ragged([b"m" * (j % 2) for j in range(len(T["muts"]))])
+    a, ao = ragged([b"TGCA"[j % 4:j % 4 + 1] * k for j, k in enumerate(RL["mut_state"])])
+    md, mdo = ragged([b"m" * k for k in RL["mut_md"]])
     tc.mutations.set_columns(site=i32(col("muts", 0)), node=i32(col("muts", 1)), parent=i32(col("muts", 2)),
                              time=f64(col("muts", 3)), derived_state=a, derived_state_offset=ao,
                              metadata=md, metadata_offset=mdo)
@@ -969,8 +1003,9 @@ def coq_tables(T):
             o.append(o[-1] + x)
         return "(%s, %s, %s)" % (cz(len(lengths)), clist(o), cz(o[-1]))
     nN, nS, nM, nI = len(T["nodes"]), len(T["sites"]), len(T["muts"]), len(T["inds"])
-    ragged = [offs([j % 3 for j in range(nN)]), offs([1] * nS), offs([1] * nS), offs([1] * nM),
-              offs([j % 2 for j in range(nM)]), offs([1] * nI), offs([]), offs([])]
+    RL = ragged_lengths(T)
+    ragged = [offs(RL["node_md"]), offs(RL["site_state"]), offs(RL["site_md"]), offs(RL["mut_state"]),
+              offs(RL["mut_md"]), offs(RL["ind_md"]), offs([]), offs([])]
     idx = "None" if T["index"] is None else "(Some (%s, %s))" % (clist(T["index"]["I"]), clist(T["index"]["O"]))
     fields = [
         cfl(T["L"], cmap), cz(T["npop"]), cz(len(T["inds"])),
@@ -1319,6 +1354,74 @@ class Reuse(Gate):
                     yield {"T": copyT(G), "bad": X, "edits": [label]}
 
 
+class Stale(Gate):
+    """stale derived state (ROUND5 class 7): an index is built on a live TableCollection, the
+    tables are then grown / shrunk / rewritten in place, and the gate (tree_sequence, dump+load,
+    load_tables) runs on that live object.  Expected = the data model on the final tables with
+    whatever index arrays the object still regards as present (has_index() compares the edge
+    count), identical to a fresh TableCollection built from those, and the model on the same."""
+    name = "stale"
+
+    def generate(self, rng, tier):
+        n = 6 if tier == "quick" else 30
+        for T in pick_bases(rng, n):
+            deps = [d for d in single_departures(T, rng, 2)
+                    if any(k in d[0] for k in (" dup ", " del ", " swap ", "nothing right", "nothing left", "edges[", "nodes["))]
+            for label, f in rng.sample(deps, min(len(deps), 14 if tier == "quick" else 40)):
+                X = copyT(T)
+                f(X)
+                X["index"] = None
+                yield {"T": X, "start": copyT(T), "edits": ["index built, then: " + label]}
+
+    def observe(self, case):
+        import tskit
+        tc = build_tc(case["start"])
+        tc.build_index()
+        fill_tc(tc, case["T"], keep_index=True)
+        idx = None
+        if tc.has_index():
+            ix = tc.indexes
+            idx = {"I": [int(x) for x in ix.edge_insertion_order], "O": [int(x) for x in ix.edge_removal_order]}
+        live = {"ts": gate_once(tc)["ts"]}
+        try:
+            live["lt"] = {"v": "ok", "num_trees": tskit.TreeSequence.load_tables(tc).num_trees}
+        except Exception as e:   # noqa: BLE001
+            live["lt"] = classify(e)
+        F = copyT(case["T"])
+        F["index"] = idx
+        obs = run_gate(F)
+        obs["live"] = live
+        obs["index_kept"] = idx
+        return obs
+
+    def _final(self, case, obs):
+        F = copyT(case["T"])
+        F["index"] = obs["index_kept"]
+        return {"T": F, "edits": case["edits"]}
+
+    def oracle(self, case, obs):
+        out = Gate.oracle(self, self._final(case, obs), obs)
+        sig = lambda o: (o.get("v"), o.get("err"), o.get("num_trees"))   # noqa: E731
+        for key in ("ts", "lt"):
+            if key == "lt" and obs["index_kept"] is None and obs["live"]["ts"]["v"] == "ok":
+                continue        # tree_sequence() has just built an index on the live object
+            if sig(obs["live"][key]) != sig(obs[key]):
+                out.append(("stale-live-differs:" + key, "live object %r, fresh object with the same tables and index %r"
+                            % (obs["live"][key], obs[key])))
+        return out
+
+    def coq_check(self, case, obs):
+        return Gate.coq_check(self, self._final(case, obs), obs)
+
+    def describe(self, case, obs):
+        d = Gate.describe(self, self._final(case, obs), obs)
+        d["index_kept"] = obs["index_kept"] is not None
+        return d
+
+    def nontrivial(self, case, obs):
+        return True
+
+
 class Big(Gate):
     """sizes (thorough only): one node with 2**16 + 1 children, i.e. > 2**16 edges and index
     entries beyond the 16-bit range, with a consistent user index, a built index, and a removal
@@ -1349,7 +1452,7 @@ class Big(Gate):
         yield {"T": Z, "edits": ["big", "index.I[2^16]=out-of-range"]}
 
 
-FAMILIES = [Valid, Stream, F1Scope, Layout, Reuse, Big]
+FAMILIES = [Valid, Stream, F1Scope, Layout, Reuse, Stale, Big]
 
 NOT_COVERED = [
     "provenance requirements of the docs (ISO-8601 timestamp, JSON record: 'should', not part of tree-sequence validity); "
